@@ -139,7 +139,124 @@ def _has_adapter(s):
     return _AD.match_to(s) is not None
 
 
+FILTER_OPTS = {"-m": 1, "-M": 1, "--max-n": 1, "--max-ee": 1, "--discard-casava": 0, "--too-short-output": 1, "--too-long-output": 1}
+
+
+def split_argv(argv):
+    """(modifying options, filter options) of a command line of gen_modified_case"""
+    mods, filt, i = [], [], 0
+    while i < len(argv):
+        t = argv[i]
+        if t in FILTER_OPTS:
+            filt += argv[i:i + 1 + FILTER_OPTS[t]]
+            i += 1 + FILTER_OPTS[t]
+        elif t == "-o":
+            i += 2
+        elif t == "--no-index":
+            i += 1
+        else:
+            mods.append(t)
+            i += 1
+    return mods, filt
+
+
+def gen_modified_case(ctx):
+    """"filters see the fully modified read": filters together with options that change the sequence, the qualities or the header"""
+    rng = ctx.rng
+    reads = []
+    for i in range(rng.randint(4, 8)):
+        ln = rng.choice([3, 8, 10, 12, 15, 20, 30])
+        s = pipe.rs(rng, ln, rng.choice(["ACGT", "ACGTN", "NACGN"]))
+        if rng.random() < 0.5:
+            s = s + "GATTACAGA" + pipe.rs(rng, rng.randint(0, 4))
+        q = "".join(chr(33 + rng.choice([2, 10, 20, 30, 40])) for _ in s)
+        reads.append((f"r{i}" + rng.choice([" 1:Y:0:1", " 1:N:0:1", " 1:Y:0:1 extra", "", " x 1:Y:0"]), s, q))
+    mods = []
+    for o in rng.sample([["-u", str(rng.choice([2, -3, 5]))], ["-q", rng.choice(["15", "10,20"])], ["-a", "a0=GATTACAGA"],
+                         ["--trim-n"], ["-l", str(rng.choice([6, 10, -8]))],
+                         ["--rename", rng.choice(["{id}", "{id} {adapter_name} {comment}", "{id} 1:Y:0:{comment}", "{id} x{comment}", "{comment} {id}"])],
+                         ["-x", rng.choice(["libA ", "p_"])], ["-y", rng.choice([" 1:Y:0:N", "_s", " 2:N:0"])],
+                         ["--strip-suffix", rng.choice([" 1:Y:0:1", ":1", "1"])], ["--length-tag", "1:Y:"]], rng.randint(1, 3)):
+        mods += o
+    if "--rename" in mods and ("-x" in mods or "-y" in mods):
+        i = mods.index("--rename")
+        del mods[i:i + 2]
+    filt = []
+    r0 = rng.choice(reads)
+    if rng.random() < 0.5:
+        filt += ["-m", str(max(0, len(r0[1]) - rng.choice([0, 2, 3, 5, 9])))]
+        if rng.random() < 0.5:
+            filt += ["--too-short-output", "{dir}/ts1.fastq"]
+    if rng.random() < 0.4:
+        filt += ["-M", str(max(0, len(rng.choice(reads)[1]) - rng.choice([0, 2, 3, 5, 9])))]
+        if rng.random() < 0.5:
+            filt += ["--too-long-output", "{dir}/tl1.fastq"]
+    if rng.random() < 0.4:
+        filt += ["--max-n", rng.choice(["0", "1", "2", "0.1", "0.2"])]
+    if rng.random() < 0.4:
+        filt += ["--max-ee", rng.choice(["0.5", "1", "2", "3"])]
+    if rng.random() < 0.6 or not filt:
+        filt.append("--discard-casava")
+    argv = (["--no-index"] if rng.random() < 0.5 else []) + mods + filt + ["-o", "{dir}/o1.fastq"]
+    return dict(argv=argv, paired=False, reads1=reads, reads2=None, with_qual=True, interleaved_in=False, modified_case=True, mods=mods, filt=filt)
+
+
+def modified_oracle(ctx, case, real):
+    """two-stage reference: the modifying options alone produce the modified reads; the documented criteria applied to *those* records
+    in the documented order give every read's destination"""
+    if "error" in real:
+        if real["error"] != "cmdline":
+            pipeprop.crash_failures(ctx, "C11", case, real)
+        return
+    argv, filt = case["argv"], case["filt"]
+    stage = dict(case, argv=[t for t in argv[:1] if t == "--no-index"] + case["mods"] + ["-o", "{dir}/o1.fastq"])
+    _, r1 = pipe.run_real(stage)
+    if "error" in r1:
+        return
+    m, M = opt(filt, "-m", int), opt(filt, "-M", int)
+    maxn, maxee = opt(filt, "--max-n", float), opt(filt, "--max-ee", float)
+    exp = {"o1.fastq": []}
+    if "--too-short-output" in filt:
+        exp["ts1.fastq"] = []
+    if "--too-long-output" in filt:
+        exp["tl1.fastq"] = []
+    for name, s, q in r1["files"].get("o1.fastq", []):
+        e = ee(q)
+        if maxee is not None and abs(e - maxee) <= 1e-9 * max(1, e):
+            ctx.count("float-boundary-skipped")
+            return
+        nn = s.lower().count("n")
+        if m is not None and len(s) < m:
+            dest = "ts1.fastq" if "--too-short-output" in filt else None
+        elif M is not None and len(s) > M:
+            dest = "tl1.fastq" if "--too-long-output" in filt else None
+        elif maxn is not None and ((maxn < 1 and len(s) > 0 and nn / len(s) > maxn) or (maxn >= 1 and nn > maxn)):
+            dest = None
+        elif maxee is not None and e > maxee:
+            dest = None
+        elif "--discard-casava" in filt and name.partition(" ")[2][1:4] == ":Y:":
+            dest = None
+        else:
+            dest = "o1.fastq"
+        if dest:
+            exp[dest].append([name, s, q])
+        else:
+            ctx.nontriv(("filtered-after-modification", name, s, tuple(argv)))
+    got = {k: [list(r) for r in v] for k, v in real["files"].items()}
+    ctx.count("modified-read-checked")
+    if got != exp:
+        bad = {k: (got.get(k), exp.get(k)) for k in set(got) | set(exp) if got.get(k) != exp.get(k)}
+        k = sorted(bad)[0]
+        ctx.failures.append(Failure("C11/filter-does-not-see-the-modified-read", "the destinations differ from the documented criteria applied, in the documented "
+                                    "order, to the fully modified reads (the output of the same command without the filter options)",
+                                    case_input(case), {k: bad[k][0]}, {k: bad[k][1]}))
+
+
 def run(ctx):
+    mc = [gen_modified_case(ctx) for _ in range(ctx.scale(80, 1500))]
+    for case, res, real, model in pipe.run_cases(ctx, mc):
+        ctx.count("directed-modified")
+        modified_oracle(ctx, case, real)
     pipeprop.run(ctx, "C11", FOCUS, oracle, 150, 3000,
                  "random command lines with focus on filter options and redirect files, plus directed single-end cases without read modification whose thresholds are "
                  "drawn at and around the reads' own length, N count, expected errors and error rate; non-trivial = distinct read consumed by a filter",
@@ -190,6 +307,9 @@ def extended_search(ctx):
 
 def replay(ctx, rp):
     def orc(ctx, case, res, real):
+        if any(t in case["argv"] for t in ("-u", "-q", "--trim-n", "-l", "--rename", "-x", "-y", "--strip-suffix", "--length-tag")):
+            case["mods"], case["filt"] = split_argv(case["argv"])
+            return modified_oracle(ctx, case, real)
         case["filter_case"] = True
         oracle(ctx, case, res, real)
     return pipeprop.generic_replay("C11", orc)(ctx, rp)
